@@ -1,0 +1,12 @@
+//go:build verif
+
+package constructor
+
+// Exported wrappers of unexported helpers, for the verification probe only.
+
+func VerifParseGetSetComment(doc string) (bool, bool)   { return parseGetSetComment(doc) }
+func VerifParseNewComment(doc string) bool              { return parseNewComment(doc) }
+func VerifParseDefComment(doc string) (string, bool)    { return parseDefComment(doc) }
+func VerifParseJSONTag(tag string) string               { return parseJSONTag(tag) }
+func VerifParseNewTag(tag string) string                { return parseNewTag(tag) }
+func VerifParseGetterSetterDoc(doc string) (bool, bool) { return parseGetterSetterDoc(doc) }
